@@ -184,7 +184,13 @@ func (r *rig) makeHandler(tag, kind, capacity int) int {
 }
 
 func frame(id uint32) []byte {
-	hdr := net.NewHeader(net.Post, 1, 1, 100, id)
+	// even ids are calls (a call that finds a queue full is answered with an error frame by the
+	// endpoint - one more step inside the dispatch loop), odd ids posts
+	typ := uint8(net.Post)
+	if id%2 == 0 {
+		typ = net.Call
+	}
+	hdr := net.NewHeader(typ, 1, 1, 100, id)
 	m := net.NewMessage(hdr, []byte{byte(id), 2, 3})
 	var b bytes.Buffer
 	if err := m.Write(&b); err != nil {
